@@ -1,3 +1,62 @@
-From Coq Require Import List String.
-Example C15_placeholder : True. Proof. exact I. Qed.
-Print Assumptions C15_placeholder.
+(** C15 — created entities exist, and attribute data reads back what was written.  Property theorems only
+    (over the file-system model FS/Fs.v and the writer / getter model Data/Data.v).  A failing operation returns no new
+    state (outcome type): "changes nothing" holds by construction.  Existence through searches goes through FindInAll and
+    is checked on the implementation over exhaustive short and random histories and by tree-to-model comparison. *)
+From Coq Require Import List String Ascii Bool Arith.
+From Spil Require Import Base.Str Base.Dict Base.Outcome Base.PyPath Resolva.Resolver Conf.Conf Conf.Routing Conf.WF Sid.Sid
+  Search.Unfold Search.Finders FS.Fs Data.Data Data.Crash Path.PathProofs Data.DataProofs Data.CrashProofs.
+From SpilGen Require Hamlet.
+Import ListNotations.
+Local Open Scope string_scope.
+
+Theorem C15_create_existing_fails : forall c Ld Rt, load c = Some Ld -> wf_loadedb Ld = true ->
+  forall F cfg s data x p, Sid Ld s = Ok x -> sid_path Ld x (default_cfg Ld cfg) = Ok (Some p) ->
+  fs_exists F p = true -> w_create Ld Rt F cfg s data = Raise SpilException.
+Proof. exact create_existing_fails. Qed.
+Print Assumptions C15_create_existing_fails.
+
+Theorem C15_update_missing_fails : forall c Ld, load c = Some Ld -> wf_loadedb Ld = true ->
+  forall F cfg s data x p, Sid Ld s = Ok x -> sid_path Ld x (default_cfg Ld cfg) = Ok (Some p) ->
+  fs_exists F p = false -> w_update Ld F cfg s data = Raise SpilException.
+Proof. exact update_missing_fails. Qed.
+Print Assumptions C15_update_missing_fails.
+
+Theorem C15_no_path_fails : forall c Ld Rt, load c = Some Ld -> wf_loadedb Ld = true ->
+  forall F cfg s data x, Sid Ld s = Ok x -> sid_path Ld x (default_cfg Ld cfg) = Ok None ->
+  w_create Ld Rt F cfg s data = Raise SpilException /\ w_update Ld F cfg s data = Raise SpilException.
+Proof. exact no_path_write_fails. Qed.
+Print Assumptions C15_no_path_fails.
+
+(* what is read after a write is the overlay of the previous data with the written values (later replace earlier, other keys persist) *)
+Theorem C15_read_after_write : forall c Ld, load c = Some Ld -> wf_loadedb Ld = true ->
+  forall F cfg s data F' b x p, w_update Ld F cfg s data = Ok (F', b) -> Sid Ld s = Ok x ->
+  sid_path Ld x (default_cfg Ld cfg) = Ok (Some p) ->
+  load_sidecar F' (sidecar Ld p) = match fs_get F (sidecar Ld p) with
+                                    | Some _ => dupdate (load_sidecar F (sidecar Ld p)) data
+                                    | None => data
+                                    end.
+Proof. exact read_after_write_sidecar. Qed.
+Print Assumptions C15_read_after_write.
+
+(* a write touches exactly one file: the sidecar of the written entity *)
+Theorem C15_isolation : forall c Ld, load c = Some Ld -> wf_loadedb Ld = true ->
+  forall F cfg s data F' b, w_update Ld F cfg s data = Ok (F', b) ->
+  exists x p, Sid Ld s = Ok x /\ sid_path Ld x (default_cfg Ld cfg) = Ok (Some p) /\
+              forall q, q <> sidecar Ld p -> fs_get F' q = fs_get F q.
+Proof. exact write_isolation. Qed.
+Print Assumptions C15_isolation.
+
+Theorem C15_isolation_read : forall c Ld, load c = Some Ld -> wf_loadedb Ld = true ->
+  forall F cfg s data F' b x p, w_update Ld F cfg s data = Ok (F', b) -> Sid Ld s = Ok x ->
+  sid_path Ld x (default_cfg Ld cfg) = Ok (Some p) ->
+  forall cfg' y attrs enc,
+  (forall py, sid_path Ld y (default_cfg Ld cfg') = Ok (Some py) -> sidecar Ld py <> sidecar Ld p) ->
+  get_data_paths Ld F' cfg' y attrs enc = get_data_paths Ld F cfg' y attrs enc.
+Proof. exact write_isolation_get. Qed.
+Print Assumptions C15_isolation_read.
+
+(* entities whose paths differ only by the file extension share one sidecar (by design of get_data_json_path) *)
+Theorem C15_same_stem_shares : forall suf d stem, mem_c "/" stem = false ->
+  sidecar_path suf (d ++ "/" ++ stem ++ ".ma") = sidecar_path suf (d ++ "/" ++ stem ++ ".mb").
+Proof. exact sidecar_same_stem_ma_mb. Qed.
+Print Assumptions C15_same_stem_shares.
